@@ -13,6 +13,12 @@ def V(prop, clause, detail, sub=None, ctx=None, sig_extra=None):
     return {"clause": clause, "sig": sig, "detail": str(detail)[:400], "sub": sub, "ctx": ctx or {}}
 
 
+def same_point(a, b):
+    """Same iterate *by value* (x and y bytes).  The properties speak of the iterate being
+    unchanged, not of object identity: an implementation that hands back an equal copy holds them."""
+    return a is b or (a.x.tobytes() == b.x.tobytes() and a.y.tobytes() == b.y.tobytes())
+
+
 def chain_accept(ex):
     """Per trial: was the step finally accepted (after the penalty veto)?
     Derived from the observable chain (next trial starts from this trial's
@@ -24,7 +30,7 @@ def chain_accept(ex):
             acc.append(False)
             continue
         if t + 1 < len(T):
-            acc.append(T[t + 1].inp is tr.out)
+            acc.append(same_point(T[t + 1].inp, tr.out))
         else:
             fa = tr.final_accept()
             acc.append(bool(fa) if fa is not None else True)
